@@ -190,7 +190,8 @@ func parseBool(s string) bool {
 
 // ShouldSkipFile returns true if the file should be skipped based on configuration
 func (c *Config) ShouldSkipFile(pass *analysis.Pass, file *ast.File) bool {
-	position := pass.Fset.Position(file.Pos())
+	// The file's own name, not one a //line directive substitutes for it
+	position := pass.Fset.PositionFor(file.Pos(), false)
 	filename := position.Filename
 
 	// Check exclude paths first (always exclude testdata by default)
